@@ -139,11 +139,23 @@ def attribution():
 
         return np.zeros(2) @ np.zeros(3)
 
+    def crash(ctx):
+        os.abort()
+
+    def killed(ctx):
+        import signal
+
+        os.kill(os.getpid(), signal.SIGKILL)
+
     ctx = core.Ctx("C10", "quick", 0)
     a, b, c = core._run_engine("wavelet", inside, ctx), core._run_engine("wavelet", outside, ctx), core._run_engine("wavelet", via_numpy, ctx)
+    d, e = core._run_engine("wavelet", crash, ctx), core._run_engine("wavelet", killed, ctx)
     ok = (len(a.violations) == 1 and not a.machinery_error and a.violations[0].props == ["C01", "C10"]
-          and b.machinery_error and not b.violations and c.machinery_error and not c.violations)
-    print("  (e) exception raised inside sigpy -> violation %s; raised by the harness / by numpy under the harness -> machinery failure: %s"
+          and b.machinery_error and not b.violations and c.machinery_error and not c.violations
+          and len(d.violations) == 1 and d.violations[0].key.get("kind") == "code_crashes" and not d.machinery_error
+          and e.machinery_error and not e.violations)
+    print("  (e) exception raised inside sigpy -> violation %s; raised by the harness / by numpy under the harness -> machinery failure; "
+          "interpreter aborted (SIGABRT) -> violation; engine killed from outside (SIGKILL) -> machinery failure: %s"
           % (a.violations[0].props if a.violations else None, "ok" if ok else "FAILED"))
     return ok
 
